@@ -85,20 +85,39 @@ def run(ctx):
     for name, t in sfields.items():
         if is_call(t, "Responder::new"):
             keys.add(t[2][2])
-    okone = len(keys) == 1 and next(iter(keys))[0] == "obj"
+    # identity of a key object = the expression that builds it: LongTermKey::new(load_seed(<config>)); several objects built that way from the
+    # same configuration are the same identity (load_seed is a function of the configuration, checked below)
+    def key_identity(k):
+        if not (isinstance(k, tuple) and k and k[0] == "obj"):
+            return None
+        init = W.obj_init(k)
+        if not is_call(init, "LongTermKey::new"):
+            return None
+        seed = values.strip_payload(init[2][0])
+        while isinstance(seed, tuple) and seed and seed[0] in ("index", "call") and not is_call(seed, "load_seed"):
+            # &seed[..] / as_ref / deref views of the loaded seed
+            if seed[0] == "index":
+                if not (seed[2][0] == "agg" and str(seed[2][1]).endswith("RangeFull")):
+                    return None
+                seed = values.strip_payload(seed[1])
+            elif callee_name(seed[1]) in values.VIEW_NAMES and seed[2]:
+                seed = values.strip_payload(seed[2][0])
+            else:
+                return None
+        if not is_call(seed, "load_seed"):
+            return None
+        return ("LongTermKey::new(load_seed)", tuple(seed[2]))
+    idents = {k: key_identity(k) for k in keys}
+    okone = bool(keys) and all(v is not None for v in idents.values()) and len(set(idents.values())) == 1
     ltk = next(iter(keys)) if keys else None
-    ctx.check("one-identity", "both-responders-share-the-long-term-key", okone, "both responders certify with the same LongTermKey object",
-              "responders are built from different keys: %s" % [fmt(k) for k in keys], ctx.loc(sfn))
+    ctx.check("one-identity", "both-responders-share-the-long-term-key", okone,
+              "both responders certify with a LongTermKey built as LongTermKey::new(load_seed(config)) from the same configuration",
+              "responders are certified by keys that are not provably the same identity: %s" % [fmt(W.obj_init(k)) if k[0] == "obj" else fmt(k) for k in keys], ctx.loc(sfn))
     if okone:
-        init = W.obj_init(ltk)
-        oki = is_call(init, "LongTermKey::new") and is_call(values.strip_payload(init[2][0]), "load_seed")
-        ctx.check("one-identity", "key-from-load_seed", oki, "long_term_key = LongTermKey::new(load_seed(config))", "long-term key is %s" % fmt(init), ctx.loc(sfn))
         sv = sfields.get("srv_value")
-        ctx.check("one-identity", "srv-of-same-key", is_call(sv, "LongTermKey::srv_value") and sv[2][0] == ltk, "Server.srv_value = long_term_key.srv_value()",
+        oksv = is_call(sv, "LongTermKey::srv_value") and key_identity(sv[2][0]) == next(iter(idents.values()))
+        ctx.check("one-identity", "srv-of-same-key", oksv, "Server.srv_value = srv_value() of the same identity",
                   "srv_value is %s" % fmt(sv), ctx.loc(sfn))
-    n_ltk = [c for c in P.callers(LTK + "::new") if not c[0].startswith("roughenough_")]
-    ctx.check("one-identity", "single-LongTermKey-construction-in-lib", len(n_ltk) == 1, "LongTermKey::new is called once in the library (Server::new)",
-              "LongTermKey::new is called from %s" % sorted(c[0] for c in n_ltk))
     ls = ctx.fn("roughenough::kms::load_seed")
     lev = W.ev(ls.path)
     r = lev.ret()
